@@ -5,7 +5,7 @@ NS = ['My', 'Hal', 'Sub', 'A', 'B', 'Proj', 'MyLib', 'Su']     # some contain ot
 ITF = ['IApi', 'IHal', 'ICtl', 'IToaster', 'IApi2', 'Api', 'IHalt']
 EXT = ['Str', 'Int', 'T', 'MilliSeconds', 'PIncident', 'Integer', 'St']
 EXTV = ['std::string', 'int', 'size_t', '::Sub::MyLongNamedType', '::My::Data<int>', 'std::shared_ptr<::Incident>', 'const char*', '::Incident*']
-PORTS = ['api', 'ctl', 'hal', 'hal2', 'cord', 'led', 'p1', 'x_y', 'Api2', 'q']
+PORTS = ['api', 'ctl', 'hal', 'hal2', 'cord', 'led', 'p1', 'x_y', 'Api2', 'q', 'dataIn', 'userApi', 'p1Out', 'UPPER']
 EVIN = ['Claim', 'Release', 'Drop', 'Use', 'Initialize', 'Go', 'Set', 'Cancel', 'TryClaim', 'ReleaseAll', 'UseUp']   # some contain others
 EVOUT = ['Done', 'Fail', 'Went', 'Ok', 'Ready', 'DoneAll', 'Okay']
 FORMALS = ['msg', 'n', 'a', 'b', 'value', 'incident', 'waitMs', 'val', 'n2']
@@ -178,11 +178,14 @@ def gen_case(rng, rich=True):
             enum_fields = it['types'][0][2]
             mc = [p[0], claim[0], [rng.choice(enum_fields)], release[0]]
     pc['mc'] = mc
-    cfg = {'file': rng.choice(['Toaster.dzn', 'dir/sub/Model.dzn', 'My.Model.dzn', comp_name + '.dzn', 'Garden.dzn', 'sub/Buzz.dzn', 'Fond.dzn']),
+    cfg = {'file': rng.choice(['Toaster.dzn', 'dir/sub/Model.dzn', 'My.Model.dzn', comp_name + '.dzn', 'Garden.dzn', 'sub/Buzz.dzn', 'Fond.dzn',
+                              'models/rev.3/Toaster.dzn', 'models/rev.3/Kettle', '../shared.models/Oven', 'Plain', './a.b/c.d/Model.dzn']),
            'suffix': rng.choice(['AdvShell', 'Shell', '_Impl']), 'enc': comp_scope + [comp_name], 'ports': pc,
-           'fac': rng.choice(['create', 'import']), 'copyright': rng.choice(['Copyright (c) 2024 X', '(c) a\n(c) b', '', 'line\n\n  indented', 'Copyright \u00a9 2024 \u00dcn\u00efc\u00f6de \u20ac \U0001f600']),
+           'fac': rng.choice(['create', 'import']), 'copyright': rng.choice(['Copyright (c) 2024 X', '(c) a\n(c) b', '', 'line\n\n  indented', 'Copyright \u00a9 2024 \u00dcn\u00efc\u00f6de \u20ac \U0001f600',
+                                   'Cafe\u0301 Zu\u0308rich \u212b \u2126 \ufb01 (not NFC-normalised)']),
            'sf_prefix': rng.choice([None, None, ['Other', 'Project'], ['P_1']]),
-           'creator': rng.choice([None, None, 'script.py', 'tool v1\nby me\n'])}
+           'creator': rng.choice([None, None, 'script.py', 'tool v1\nby me\n']),
+           'verbose': rng.random() < 0.3}     # progress output only: never influences the result
     return {'file': tree, 'cfg': cfg,
             'info': {'comp_scope': comp_scope, 'itfs': [{k2: v for k2, v in it.items() if k2 != 'events'} for it in itfs],
                      'ports': [[p[0], p[1], p[2], p[3], p[4]['fqn']] for p in ports]}}
@@ -229,6 +232,11 @@ def faults(rng, case):
 
     variant('encapsulee-unknown', lambda c: c['cfg'].__setitem__('enc', c['cfg']['enc'][:-1] + ['Nope']))
     variant('encapsulee-is-interface', lambda c: c['cfg'].__setitem__('enc', list(info['itfs'][0]['fqn'])))
+    for kind, decl in (('foreign', ['foreign', ['NotAComp'], [['api', list(info['itfs'][0]['fqn']), 'provides', False]]]), ('enum', ['enum', ['NotAComp'], ['A']]),
+                       ('extern', ['extern', ['NotAComp'], 'int']), ('subint', ['subint', ['NotAComp'], 0, 3])):
+        # something that is not a component or system under the encapsulee name (a foreign component has ports, too)
+        variant('encapsulee-is-' + kind, lambda c, decl=decl: (place(c['file'], c['cfg']['enc'][:-1], copy.deepcopy(decl)),
+                                                               c['cfg'].__setitem__('enc', c['cfg']['enc'][:-1] + ['NotAComp'])))
     variant('encapsulee-duplicate', lambda c: place(c['file'], c['cfg']['enc'][:-1], ['extern', [c['cfg']['enc'][-1]], 'dup']))
     if info['ports']:
         p = rng.choice(info['ports'])
@@ -269,8 +277,24 @@ def faults(rng, case):
         def setmc(c, i, v):
             c['cfg']['ports']['mc'][i] = v
         variant('mc-unknown-port', lambda c: setmc(c, 0, 'ghost'))
+        def mc_on_requires(c, injected):
+            # the configured multi-client port is a REQUIRES port (exposed or injected) that has the very interface of the
+            # provides port - claim and release events exist on it
+            comp = find_decl(c['file'], lambda d: d[0] in ('comp', 'sys') and d[1] == [cfg['enc'][-1]] and any(q[0] == mc[0] for q in d[2]))
+            mcp = next(q for q in comp[2] if q[0] == mc[0])
+            cand = [q for q in comp[2] if q[2] == 'requires' and bool(q[3]) == injected]
+            if cand:
+                cand[0][1] = list(mcp[1])
+                setmc(c, 0, cand[0][0])
+            elif injected:
+                comp[2].append(['injLike', list(mcp[1]), 'requires', True])
+                setmc(c, 0, 'injLike')
+            else:
+                return False
         if req:
             variant('mc-requires-port', lambda c: setmc(c, 0, req[0][0]))
+        variant('mc-requires-port-same-interface', lambda c: mc_on_requires(c, False))
+        variant('mc-injected-port-same-interface', lambda c: mc_on_requires(c, True))
         variant('mc-unknown-claim', lambda c: setmc(c, 1, 'NoSuchEvent'))
         variant('mc-unknown-release', lambda c: setmc(c, 3, 'NoSuchEvent'))
         variant('mc-claim-equals-release', lambda c: setmc(c, 3, mc[1]))
